@@ -46,16 +46,14 @@ var (
 )
 
 // entrySizes computes, with the real codec, the three sizes the model needs for one entry.
-func entrySizes(keyID, valLen int, exp bool, vt int) (est, plen, vlen int) {
+func entrySizes(keyID, valLen int, exp int, vt int) (est, plen, vlen int) {
 	ik := kv.InternalKey(kv.CFDefault, keyBytes(keyID), 1)
 	e := &kv.Entry{Key: ik}
 	if valLen < 0 {
 		e.Meta = kv.BitDelete
 	} else {
 		e.Value = valueBytes(1, keyID, valLen)
-		if exp {
-			e.ExpiresAt = farExpiry
-		}
+		e.ExpiresAt = expiryOf(exp)
 	}
 	big := valLen >= 0 && valLen >= vt
 	if big {
@@ -70,14 +68,12 @@ func entrySizes(keyID, valLen int, exp bool, vt int) (est, plen, vlen int) {
 	return
 }
 
-func entToken(keyID, valLen int, exp bool, vt int) string {
+func entToken(keyID, valLen int, exp int, vt int) string {
 	est, plen, vlen := entrySizes(keyID, valLen, exp, vt)
 	v := "del"
 	if valLen >= 0 {
 		v = strconv.Itoa(valLen)
-		if exp {
-			v += "e"
-		}
+		v += []string{"", "e", "p"}[exp]
 	}
 	return fmt.Sprintf("k%d=%s:%d:%d:%d", keyID, v, est, plen, vlen)
 }
@@ -253,10 +249,14 @@ func expandOps(ops []string) []string {
 				}
 				p := strings.SplitN(f[j], "=", 2)
 				id, _ := strconv.Atoi(p[0][1:])
-				n, exp := -1, false
+				n, exp := -1, 0
 				if p[1] != "del" {
-					exp = strings.HasSuffix(p[1], "e")
-					n, _ = strconv.Atoi(strings.TrimSuffix(p[1], "e"))
+					if strings.HasSuffix(p[1], "e") {
+						exp = 1
+					} else if strings.HasSuffix(p[1], "p") {
+						exp = 2
+					}
+					n, _ = strconv.Atoi(strings.TrimRight(p[1], "ep"))
 				}
 				f[j] = entToken(id, n, exp, vt)
 			}
@@ -284,10 +284,19 @@ func probeLine() string {
 // genWorkload produces the `open` line and n transaction lines.  All entries of one transaction
 // have the same encoded size (the commit path iterates a Go map, so the order of a batch's
 // entries is not determined; with equal sizes every count the case observes is).
+//
+// Shapes: ordinary (small memtable, value log, deletes, far and already-elapsed expiry), bigBuf
+// (100-300 KB inline values: the WAL's 256 KiB bufio buffer spills inside records and batches, a
+// record larger than the buffer is torn by a kill), tiny (equal-sized records and a memtable that
+// holds exactly one of them: a WAL segment switch on every write).
 func genWorkload(r *hlib.Rand, sync bool, n int, bigBuf bool) (string, []string) {
 	mt := hlib.Pick(r, []int{1024, 1024, 2048, 4096})
 	vt := 64
 	vf := hlib.Pick(r, []int{2048, 4096, 8192})
+	tiny := !bigBuf && r.Chance(12)
+	if tiny {
+		mt = 100 // EstimateEncodeSize of a 20-byte entry is 92: one record per memtable
+	}
 	if bigBuf {
 		mt, vt, vf = 2000000, 1000000, 1048576
 	}
@@ -302,10 +311,15 @@ func genWorkload(r *hlib.Rand, sync bool, n int, bigBuf bool) (string, []string)
 	for i := 0; i < n; i++ {
 		cnt := 1 + r.Intn(6)
 		kind := r.Intn(100)
-		vlen, exp, del := 0, false, false
+		vlen, exp, del := 0, 0, false
 		switch {
+		case tiny:
+			vlen, cnt = 20, 1
 		case bigBuf:
-			vlen = hlib.Pick(r, []int{100000, 100000, 60000, 130000, 20})
+			vlen = hlib.Pick(r, []int{100000, 100000, 60000, 130000, 300000, 20})
+			if i == 0 && r.Chance(50) {
+				vlen = 300000 // first record of the first segment larger than the WAL buffer
+			}
 			cnt = 1 + r.Intn(3)
 		case kind < 40:
 			vlen = 1 + r.Intn(40)
@@ -313,12 +327,17 @@ func genWorkload(r *hlib.Rand, sync bool, n int, bigBuf bool) (string, []string)
 			vlen = hlib.Pick(r, []int{64, 100, 300, 700, 1000, 1500})
 		case kind < 90 && len(used) > 0:
 			del = true
-		default:
+		case kind < 95 || len(used) == 0:
 			vlen = 1 + r.Intn(40)
-			exp = true
+			exp = 1
+		default:
+			// a version whose TTL has already elapsed, on a key that has an older version:
+			// stored like any other, it hides the key from reads
+			vlen = 12 + r.Intn(30)
+			exp = 2
 		}
 		if kind >= 40 && kind < 80 && r.Chance(20) {
-			exp = true
+			exp = 1
 		}
 		if bigBuf {
 			budget -= cnt * (vlen + 100)
@@ -330,7 +349,7 @@ func genWorkload(r *hlib.Rand, sync bool, n int, bigBuf bool) (string, []string)
 		var toks []string
 		for j := 0; j < cnt; j++ {
 			var k int
-			if del {
+			if del || exp == 2 {
 				k = hlib.Pick(r, used)
 			} else if r.Chance(40) && len(used) > 0 {
 				k = hlib.Pick(r, used)
@@ -342,7 +361,7 @@ func genWorkload(r *hlib.Rand, sync bool, n int, bigBuf bool) (string, []string)
 			}
 			seen[k] = true
 			if del {
-				toks = append(toks, entToken(k, -1, false, vt))
+				toks = append(toks, entToken(k, -1, 0, vt))
 			} else {
 				toks = append(toks, entToken(k, vlen, exp, vt))
 				used = append(used, k)
@@ -363,6 +382,13 @@ func (e *diskEngine) Gen(r *hlib.Rand, tier string) []string {
 	propLine := "prop " + e.prop
 	if e.prop == "C12" {
 		sync := r.Bool()
+		if r.Chance(15) {
+			// exactly one committed transaction (version 1) before the reopen: the boundary of the
+			// comparison that seeds the oracle
+			open, txns := genWorkload(r, sync, 1, false)
+			e.shapes["one-commit-reopen"]++
+			return append(append([]string{propLine, open}, txns[:1]...), "close", "reopen", probeLine(), "close", "reopen")
+		}
 		open, txns := genWorkload(r, sync, 8+r.Intn(16), r.Chance(8))
 		ops := []string{propLine, open}
 		cycles := 1 + r.Intn(3)
@@ -382,7 +408,7 @@ func (e *diskEngine) Gen(r *hlib.Rand, tier string) []string {
 	// crash cases: learn the trace of the un-killed workload on the real engine, then
 	// enumerate (thorough) or sample (quick) its crash points
 	sync := e.prop == "C09" || r.Bool()
-	bigBuf := r.Chance(6)
+	bigBuf := r.Chance(10)
 	open, txns := genWorkload(r, sync, 4+r.Intn(10), bigBuf)
 	learn := append([]string{propLine, open}, txns...)
 	learn = append(learn, "close")
@@ -442,7 +468,24 @@ func (e *diskEngine) Gen(r *hlib.Rand, tier string) []string {
 		default:
 			ops = append(ops, txns...)
 		}
-		ops = append(ops, "recover", probeLine(), "close", "reopen")
+		// second round on the recovered database: more (inline, equal-sized) writes, a clean
+		// reopen, a probe commit, another reopen
+		ops = append(ops, "recover")
+		vl := 20
+		if !strings.Contains(open, "mt=100 ") {
+			vl = 12 + r.Intn(40)
+		}
+		for i, n := 0, r.Intn(4); i < n; i++ {
+			var toks []string
+			for j, m := 0, 1+r.Intn(3); j < m; j++ {
+				toks = append(toks, entToken(50+i*4+j, vl, 0, 64))
+				if vl == 20 {
+					break
+				}
+			}
+			ops = append(ops, "txn "+strings.Join(toks, " "))
+		}
+		ops = append(ops, "close", "reopen", probeLine(), "close", "reopen")
 		e.queue = append(e.queue, ops)
 		e.shapes["crash-"+p.path]++
 	}
@@ -503,7 +546,7 @@ func (e *diskEngine) Extra() map[string]any {
 }
 
 type group struct {
-	ver, present, dangling, bad, extra int
+	ver, present, dangling, bad, extra, line int
 }
 
 // verdicts turns the raw dump of a (re)opened store into the canonical line compared with the
@@ -522,8 +565,9 @@ func verdicts(prop string, sync bool, raw string, acked []int, started []int, si
 			continue
 		}
 		p := strings.Split(t, ":")
-		if len(p) == 6 && p[0] == "g" {
+		if len(p) == 7 && p[0] == "g" {
 			var g group
+			g.line, _ = strconv.Atoi(p[6])
 			g.ver, _ = strconv.Atoi(p[1])
 			g.present, _ = strconv.Atoi(p[2])
 			g.dangling, _ = strconv.Atoi(p[3])
@@ -532,12 +576,7 @@ func verdicts(prop string, sync bool, raw string, acked []int, started []int, si
 			gs = append(gs, g)
 		}
 	}
-	bidOf := func(g group) int { // the v-th update transaction of the history carries version v
-		if g.ver >= 1 && g.ver <= len(txnLines) {
-			return txnLines[g.ver-1]
-		}
-		return -1
-	}
+	bidOf := func(g group) int { return g.line } // the workload line that wrote this version (see dump)
 	totalOf := func(g group) (int, bool) {
 		b := bidOf(g)
 		if b < 0 {
